@@ -178,6 +178,9 @@ func (r *Report) Violate(sig, detail string, replay any) {
 	r.Violations = append(r.Violations, Violation{Sig: sig, Detail: detail, Replay: replay})
 }
 
+// KeepViolations raises the number of violations stored verbatim.
+func (r *Report) KeepViolations(n int) { r.maxViol = n }
+
 func (r *Report) HarnessError(format string, a ...any) {
 	r.mu.Lock()
 	r.HarnessErrors = append(r.HarnessErrors, fmt.Sprintf(format, a...))
